@@ -5,6 +5,7 @@ CONSTANTS
   Offs = {0, 1, 32, 256, 1002}
   Types = {"t", "u"}
   Names = {"x", "y"}
+  NestIdx = {"x", ""}
   Vals = {"v", "w"}
   MaxOps = 3
   MaxCalls = 1
